@@ -22,9 +22,13 @@ func gOp(in Input) string {
 	switch in.Op {
 	case "struct":
 		return "OpStruct"
-	case "slice":
-		return "OpSlice"
-	case "ptrslice":
+	case "slice", "ptrslice":
+		if in.CBS > 0 { // Config.CreateBatchSize turns Create(slice) into CreateInBatches
+			return lib.App("OpBatches", lib.Z(int64(in.CBS)))
+		}
+		if in.Op == "slice" {
+			return "OpSlice"
+		}
 		return "OpPtrSlice"
 	case "batches":
 		return lib.App("OpBatches", lib.Z(int64(in.BS)))
@@ -50,6 +54,7 @@ func xrecs(in Input) [][]Val {
 }
 
 func term(in Input, o Obs) string {
+	curNaming = in.Naming
 	d := descOf(in.Type)
 	dbn := lib.ListOf(d.DBNames, func(x []string) string {
 		return lib.Pair(lib.Str(x[0]), lib.ListOf(x[1:], lib.Str))
@@ -134,6 +139,9 @@ func main() {
 		}
 		out.Count("op", in.Op)
 		out.Count("returning", fmt.Sprint(!in.NoRet))
+		out.Count("naming", "ns:"+in.Naming)
+		out.Count("query_fields", fmt.Sprint(in.QF))
+		out.Count("create_batch_size", fmt.Sprint(in.CBS))
 		out.Count("records", fmt.Sprint(len(in.Recs)))
 		out.Count("create_error", fmt.Sprint(o.Err != ""))
 		out.Count("read_errors", fmt.Sprint(len(o.ReadErrs)))
@@ -192,6 +200,14 @@ func main() {
 		} else {
 			g.Type = lib.Pick(r, mainTypes)
 			g.Op = lib.Pick(r, structOps)
+		}
+		// configuration dimensions
+		if r.Chance(1, 4) {
+			g.Naming = lib.Pick(r, []string{"prefix", "nolower", "replacer"})
+		}
+		g.QF = r.Chance(1, 3)
+		if (g.Op == "slice" || g.Op == "ptrslice" || g.Op == "struct") && r.Chance(1, 4) {
+			g.CBS = r.Range(1, 3)
 		}
 		if g.Type == "Ints" && r.Chance(1, 8) && (g.Op == "slice" || g.Op == "ptrslice" || g.Op == "batches") {
 			g.Over = true
